@@ -76,7 +76,7 @@ def node_stage(pid, tier, seed, known, cov, violations, known_hits):
         violations.append((path, "no-failing-input-found"))
 
 MIXED_PROPS = {"C03", "C19", "C20"}
-FLOW_PROPS = {"C01", "C02", "C11", "C12", "C14"}      # per-edge flow judges on node-driven factories (one run each)
+FLOW_PROPS = {"C01", "C02", "C04", "C11", "C12", "C14"}      # per-edge flow judges on node-driven factories (one run each)
 
 def mixed_stage(pid, tier, seed, cov, violations, known_hits=None):
     """factories with Fleet / conveyor / Buffer edges: run twice here and in two fresh interpreters with different hash seeds"""
@@ -94,6 +94,11 @@ def mixed_stage(pid, tier, seed, cov, violations, known_hits=None):
     if d29o and known_hits is not None:
         known_hits["KF-D29"] = known_hits.get("KF-D29", 0) + len(d29o)
     mine = [v for v in mine if v not in d29o]
+    # KF-D31: item length that does not divide the belt length -> travel time item_length * capacity / speed
+    d31 = [v for v in mine if v[1] == "flow-early-short-belt"]
+    if d31 and known_hits is not None:
+        known_hits["KF-D31"] = known_hits.get("KF-D31", 0) + len(d31)
+    mine = [v for v in mine if v not in d31]
     # known finding KF-D29 inside a factory: an ACCUMULATING continuous conveyor whose items are not slot-aligned lets them
     # overlap until `_get_belt_pattern` raises its "placement logic error" - identified by that very message and the edge
     d29 = [v for v in mine if v[1] == "kernel-exception" and "placement logic error" in v[2]
